@@ -15,49 +15,165 @@ import ast
 from ..core import AnchorMissing, Check, Undecided, calls_in, dotted, kwarg, own_nodes, src, walk_guarded
 from ..flow import CFG, specialise
 from ..hydro import n, same_term
+from ..nf import Ctx, eqx, has, match, same
 
 LEVEL = "other"
 FE = "freeEnergy:FreeEnergy"
 
 
-def _parts(x: ast.Assign) -> list:
-    """the (list, new element) pair of `L = np.concatenate((L, [v]), axis=0)` (the canonical form of np.append(L, [v], axis=0))"""
-    return list(x.value.args[0].elts)
+def _nested(fi, S, pred):
+    """nested functions of fi (by role): those whose body satisfies pred"""
+    return [f for q, f in S.modules[fi.module].funcs.items() if f.parent is fi and pred(f)]
 
 
-def _is_append(x: ast.AST) -> bool:
-    return (isinstance(x, ast.Assign) and isinstance(x.value, ast.Call) and n(x.value.func) == "np.concatenate" and x.value.args
-            and isinstance(x.value.args[0], ast.Tuple) and len(x.value.args[0].elts) == 2 and n(x.value.args[0].elts[0]) == n(x.targets[0]))
+def _directions(fi, rk_stmt, cx):
+    """(end temperature of pass 0, of pass 1, name of the pass index) of the `for` loop around the integrator"""
+    loops = [x for x in own_nodes(fi.node) if isinstance(x, ast.For) and any(y is rk_stmt for y in ast.walk(x))]
+    if len(loops) != 1:
+        return [], None
+    lp = loops[0]
+    tend = rk_stmt.value.args[3] if len(rk_stmt.value.args) > 3 else None
+    it = cx.resolve(lp.iter)
+    if isinstance(it, ast.Call) and n(it.func) == "enumerate" and isinstance(lp.target, ast.Tuple) and len(lp.target.elts) == 2 and isinstance(it.args[0], ast.List):
+        idx, var = lp.target.elts
+        if isinstance(tend, ast.Name) and isinstance(var, ast.Name) and var.id == tend.id:
+            return [n(e_) for e_ in it.args[0].elts], n(idx)
+        return [], None
+    seq = None
+    if isinstance(it, ast.List) and all(isinstance(e_, ast.Constant) for e_ in it.elts):
+        seq = [e_.value for e_ in it.elts]
+    elif eqx(it, "range(2)"):
+        seq = [0, 1]
+    if seq == [0, 1] and isinstance(lp.target, ast.Name) and tend is not None:
+        # TEnd = L[direction] with L a two-element list
+        e = cx.resolve(tend)
+        inner = [st for st in lp.body if isinstance(st, ast.Assign) and isinstance(tend, ast.Name) and n(st.targets[0]) == tend.id]
+        if inner:
+            e = cx.resolve(inner[0].value)
+        if isinstance(e, ast.Subscript) and isinstance(e.value, ast.List) and len(e.value.elts) == 2 and eqx(e.slice, lp.target.id):
+            return [n(x) for x in e.value.elts], lp.target.id
+    return [], None
+
+
+def _raises_unless(g, fn, rs_call, loop) -> bool:
+    """findCriticalTemperature: (a) the refinement is reached only through the `break` taken on a sign change,
+    (b) a temperature is returned only after the refinement reported convergence"""
+    rs_node = g.node_of(rs_call)
+    if rs_node is None or loop is None:
+        return False
+    brks = [x for x in ast.walk(loop) if isinstance(x, ast.Break)]
+    sign_tests = [t for t in g.nodes if g.kind.get(t) == "test" and isinstance(t, ast.Compare) and has(t, "np.sign") and isinstance(t.ops[0], (ast.NotEq, ast.Eq))]
+    ok_a = False
+    if len(brks) == 1 and len(sign_tests) == 1:
+        t = sign_tests[0]
+        pol = isinstance(t.ops[0], ast.NotEq)
+        # the break is only reached on the sign-change branch
+        ok_brk = not g.reaches(g.branch(t, not pol), brks[0], avoid=lambda q: q is t) and g.must_pass(CFG.ENTRY, brks[0], lambda q: q is t)
+        if g.must_pass(CFG.ENTRY, rs_node, lambda q: q is brks[0]):
+            ok_a = ok_brk
+        else:
+            # flag idiom: F = False before the loop, F = True only next to the break, `if not F: raise` between loop and refinement
+            for ft in [q for q in g.nodes if g.kind.get(q) == "test" and isinstance(q, ast.UnaryOp) and isinstance(q.op, ast.Not) and isinstance(q.operand, ast.Name)]:
+                F = q_name = ft.operand.id
+                sets = [x for x in own_nodes(fn.node) if isinstance(x, ast.Assign) and n(x.targets[0]) == F]
+                trues = [x for x in sets if eqx(x.value, "True")]
+                falses = [x for x in sets if eqx(x.value, "False")]
+                if len(trues) + len(falses) != len(sets) or not trues or not falses:
+                    continue
+                raise_branch = g.branch(ft, True)
+                if (g.must_pass(CFG.ENTRY, rs_node, lambda q: q is ft) and not g.reaches(raise_branch, rs_node) and not g.reaches(raise_branch, CFG.EXIT)
+                        and all(g.must_pass(CFG.ENTRY, x, lambda q: q is t) and not g.reaches(g.branch(t, not pol), x, avoid=lambda q: q is t) for x in trues)
+                        and all(x.lineno < loop.lineno for x in falses)):
+                    ok_a = ok_brk
+    conv = [q for q in g.nodes if g.kind.get(q) == "test" and has(q, "__r.converged".replace("__r", _result_name(fn, rs_call) or "__none__"))]
+    ok_b = False
+    for q in conv:
+        pol = not (isinstance(q, ast.UnaryOp) and isinstance(q.op, ast.Not))      # polarity on which the result is converged
+        if g.must_pass(rs_node, CFG.EXIT, lambda z: z is q) and not g.reaches(g.branch(q, not pol), CFG.EXIT):
+            ok_b = True
+    return ok_a and ok_b
+
+
+def _result_name(fn, call):
+    for st in own_nodes(fn.node):
+        if isinstance(st, ast.Assign) and st.value is call and isinstance(st.targets[0], ast.Name):
+            return st.targets[0].id
+    return None
 
 
 def rules(chk: Check) -> None:
     S = chk.src
     fi = S.func(f"{FE}.tracePhase")
     chk.touch(fi.name)
+    cx = Ctx(S, fi)
     g = CFG(fi.node)
-    steps = [x for x in g.nodes if isinstance(x, ast.Expr) and n(x.value) == "ode.step()"]
-    appends = [x for x in g.nodes if _is_append(x) and n(x.targets[0]) in ("TList", "fieldList", "potentialEffList")]
-    if len(steps) != 1 or len(appends) != 3:
+    # ---- roles (variables are identified by what is assigned to them, not by their spelling)
+    rk = [x for x in own_nodes(fi.node) if isinstance(x, ast.Assign) and isinstance(x.value, ast.Call) and (dotted(x.value.func) or "").endswith("RK45")
+          and isinstance(x.targets[0], ast.Name)]
+    if len(rk) != 1:
+        raise AnchorMissing("tracePhase: the RK45 integrator assignment not found")
+    ODE = rk[0].targets[0].id
+    steps = [x for x in g.nodes if isinstance(x, ast.Expr) and eqx(x.value, f"{ODE}.step()")]
+    appends = {}      # role -> (statement, list name, appended expression)
+    loop_ids = {id(y) for w in own_nodes(fi.node) if isinstance(w, ast.While) for y in ast.walk(w)}
+    cat = []          # every `L = concatenate((L', [v]), axis=0)` of the integration loop
+    for x in g.nodes:
+        if (isinstance(x, ast.Assign) and isinstance(x.targets[0], ast.Name) and id(x) in loop_ids and isinstance(x.value, ast.Call) and eqx(x.value.func, "np.concatenate")
+                and x.value.args and isinstance(x.value.args[0], ast.Tuple) and len(x.value.args[0].elts) == 2 and isinstance(x.value.args[0].elts[1], ast.List)
+                and len(x.value.args[0].elts[1].elts) == 1 and eqx(kwarg(x.value, "axis", 1), "0")):
+            cat.append((x, x.targets[0].id, x.value.args[0].elts[0], x.value.args[0].elts[1].elts[0]))
+    own_list = True
+    for x, L, src_list, v in cat:
+        own_list = own_list and eqx(src_list, L)
+        role = "T" if eqx(v, f"{ODE}.t") else "field" if eqx(v, f"{ODE}.y") else "V" if isinstance(v, ast.Name) else f"?{n(v)}"
+        if role in appends:
+            role = role + "'"
+        appends[role] = (x, L, n(v))
+    if len(steps) != 1 or len(cat) != 3:
         raise AnchorMissing("tracePhase: ode.step() / the three appends (np.append == np.concatenate of a pair) to the recorded lists not found")
-    spin_tests = [t for t in g.nodes if g.kind.get(t) == "test" and "spinodalEvent(ode.t, ode.y)" in n(t)]
-    size_tests = [t for t in g.nodes if g.kind.get(t) == "test" and "ode.step_size <" in n(t) and "T0" in n(t) and "startingTemperature" not in n(t)]
-    ok = len(spin_tests) == 1 and all(g.must_pass(steps[0], a, lambda q: q in spin_tests) for a in appends)
+    if set(appends) != {"T", "field", "V"}:
+        chk.ob("R11.2", fi.where(), "the recorded triple is (ode.t, ode.y, V), each appended to its own list", False, str({k: n(v[0]) for k, v in appends.items()}), key="triple")
+        return
+    APP = [appends[k][0] for k in ("T", "field", "V")]
+    TL, FL, VL, VT = appends["T"][1], appends["field"][1], appends["V"][1], appends["V"][2]
+    spin_fns = _nested(fi, S, lambda f: any(True for _ in calls_in(f.node, "deriv2Field2")) and not any(True for _ in calls_in(f.node, "allSecondDerivatives")))
+    ode_fns = _nested(fi, S, lambda f: any(True for _ in calls_in(f.node, "allSecondDerivatives")))
+    if len(spin_fns) != 1 or len(ode_fns) != 1:
+        raise AnchorMissing("tracePhase: the nested spinodal test (deriv2Field2) / ODE right-hand side (allSecondDerivatives) not found")
+    fs, fo = spin_fns[0], ode_fns[0]
+    SPIN = fs.node.name
+    spin_tests = [t for t in g.nodes if g.kind.get(t) == "test" and has(t, f"{SPIN}({ODE}.t, {ODE}.y)")]
+    wl = [w for w in own_nodes(fi.node) if isinstance(w, ast.While) and any(y is steps[0] for y in ast.walk(w))]
+    in_loop = {id(y) for w in wl for y in ast.walk(w)}
+    size_tests = [t for t in g.nodes if g.kind.get(t) == "test" and id(t) in in_loop
+                  and any(isinstance(c_, ast.Compare) and has(c_, f"{ODE}.step_size") for c_ in ast.walk(t))]
+    ok = len(spin_tests) == 1 and all(g.must_pass(steps[0], a, lambda q: q in spin_tests) for a in APP)
     chk.ob("R11.1", fi.where(), "every path from ode.step() to the recording of a point passes the spinodal test", ok, key="spinodal-before-record")
+    # the branch of the test on which the eigenvalue is <= 0 never reaches a recording
     ok_b = False
-    for st in own_nodes(fi.node):
-        if isinstance(st, ast.If) and st.test in spin_tests:
-            ok_b = n(st.test).replace(" ", "") == "spinodalEvent(ode.t,ode.y)<=0" and len(st.body) == 1 and isinstance(st.body[0], ast.Break)
+    if len(spin_tests) == 1:
+        t = spin_tests[0]
+        pol = None
+        if eqx(t, f"{SPIN}({ODE}.t, {ODE}.y) <= 0"):
+            pol = True
+        elif eqx(t, f"{SPIN}({ODE}.t, {ODE}.y) > 0"):
+            pol = False
+        if pol is not None:
+            # ... without first taking another step
+            ok_b = not any(g.reaches(g.branch(t, pol), a, avoid=lambda q: q is steps[0]) for a in APP)
     chk.ob("R11.1", fi.where(), "a non-positive smallest Hessian eigenvalue stops the tracing (the point is not recorded)", ok_b, key="spinodal-breaks")
-    ok = len(size_tests) == 1 and all(g.must_pass(steps[0], a, lambda q: q in size_tests) for a in appends)
+    ok = len(size_tests) == 1 and all(g.must_pass(steps[0], a, lambda q: q in size_tests) for a in APP) and has(size_tests[0], f"{ODE}.step_size < 1e-16 * T0", cx)
     chk.ob("R11.1", fi.where(), "every recorded point also passed the step-size collapse test", ok, key="stepsize-before-record")
-    fs = S.func(f"{FE}.tracePhase.spinodalEvent")
+    cs = Ctx(S, fs)
     rets = sorted([r for r in own_nodes(fs.node) if isinstance(r, ast.Return)], key=lambda r: r.lineno)
+    fparams = [a_.arg for a_ in fs.node.args.args]
     okd = False
     for guards, st in walk_guarded(fs.node):
-        if isinstance(st, ast.Return) and n(st.value) == "1.0":
-            okd = any(pol and n(t) == "not spinodal" for t, pol in guards if not isinstance(t, tuple))
+        if isinstance(st, ast.Return) and eqx(st.value, "1.0"):
+            okd = any((pol and eqx(t, "not spinodal")) or (not pol and eqx(t, "spinodal")) for t, pol in guards if not isinstance(t, tuple))
     d2 = [c for c in calls_in(fs.node, "deriv2Field2")]
-    ok = okd and len(d2) == 1 and [n(a) for a in d2[0].args] == ["FieldPoint(field)", "temperature"] and n(rets[-1].value).replace(" ", "") == "float(min(eigs))"
+    ok = okd and len(d2) == 1 and len(fparams) == 2 and eqx(d2[0], f"self.effectivePotential.deriv2Field2(FieldPoint({fparams[1]}), {fparams[0]})", cs) \
+        and eqx(rets[-1].value, f"float(min(scipylinalg.eigvalsh(self.effectivePotential.deriv2Field2(FieldPoint({fparams[1]}), {fparams[0]}))))", cs)
     chk.ob("R11.1", fs.where(), "the spinodal event is the smallest eigenvalue of the field Hessian at the current (field, temperature); disabled only by spinodal=False",
            ok, key="spinodal-event")
     a = fi.node.args
@@ -66,17 +182,16 @@ def rules(chk: Check) -> None:
     chk.ob("R11.1", fi.where(), "spinodal detection and per-step re-minimisation are on by default", dfl.get("spinodal") == "True" and dfl.get("paranoid") == "True", str(dfl),
            key="defaults")
     # ---- R11.2
-    want = {"TList": "[ode.t]", "fieldList": "[ode.y]", "potentialEffList": "[potentialEffT]"}
-    ok = all(n(_parts(x)[0]) == n(x.targets[0]) and n(_parts(x)[1]) == want[n(x.targets[0])] for x in appends)
-    chk.ob("R11.2", fi.where(), "the recorded triple is (ode.t, ode.y, potentialEffT), each appended to its own list", ok, key="triple")
+    chk.ob("R11.2", fi.where(), "the recorded triple is (ode.t, ode.y, V), each appended to its own list",
+           len({TL, FL, VL}) == 3 and own_list, f"lists {TL}, {FL}, {VL}; recorded potential `{VT}`", key="triple")
     kinds = []
     okp = True
     nd = 0
     for par in (True, False):
         # `paranoid` selects one of two complementary blocks: analyse each setting on its own (no infeasible paths)
         gs = CFG(specialise(fi.node, "paranoid", par))
-        pa = [x for x in gs.nodes if _is_append(x) and n(x.targets[0]) == "potentialEffList"][0]
-        rd = gs.reaching_defs(pa, "potentialEffT")
+        pa = [x for x in gs.nodes if isinstance(x, ast.Assign) and same(x, appends["V"][0])][0]
+        rd = gs.reaching_defs(pa, VT)
         nd += len(rd)
         for d in rd:
             if d is CFG.ENTRY:
@@ -84,15 +199,15 @@ def rules(chk: Check) -> None:
                 kinds.append(f"paranoid={par}: undefined on some path")
                 continue
             v = d.value
-            if isinstance(d.targets[0], ast.Tuple) and isinstance(v, ast.Call) and n(v.func) == "self.effectivePotential.findLocalMinimum":
-                argok = [n(x) for x in v.args[:2]] == ["Fields(ode.y)", "ode.t"]
+            if isinstance(d.targets[0], ast.Tuple) and isinstance(v, ast.Call) and eqx(v.func, "self.effectivePotential.findLocalMinimum"):
+                argok = len(v.args) >= 2 and eqx(v.args[0], f"Fields({ODE}.y)") and eqx(v.args[1], f"{ODE}.t")
                 first = n(d.targets[0].elts[0])
                 # ode.y must be replaced by element 0 of the same result on every path to the append
-                repl = [x for x in gs.nodes if isinstance(x, ast.Assign) and n(x.targets[0]) == "ode.y" and n(x.value) == f"{first}[0]"]
+                repl = [x for x in gs.nodes if isinstance(x, ast.Assign) and eqx(x, f"{ODE}.y = {first}[0]")]
                 follow = gs.must_pass(d, pa, lambda q: q in repl)
                 kinds.append(f"paranoid={par}: re-minimised")
-                okp = okp and argok and follow and n(d.targets[0].elts[1]) == "potentialEffT"
-            elif isinstance(v, ast.Call) and "self.effectivePotential.evaluate(Fields(ode.y), ode.t)" in n(v):
+                okp = okp and argok and follow and n(d.targets[0].elts[1]) == VT
+            elif has(v, f"self.effectivePotential.evaluate(Fields({ODE}.y), {ODE}.t)"):
                 kinds.append(f"paranoid={par}: evaluated")
             else:
                 okp = False
@@ -100,80 +215,127 @@ def rules(chk: Check) -> None:
     chk.ob("R11.2", fi.where(), "the recorded potential is V at the recorded point: either findLocalMinimum(Fields(ode.y), ode.t)[1] with ode.y replaced by "
            "its element 0, or evaluate(Fields(ode.y), ode.t) (both settings of `paranoid`)", okp and nd >= 3, str(kinds), key="value-at-point")
     # ode.y is not modified between those definitions and the append other than by that replacement
-    other = [x for x in g.nodes if isinstance(x, (ast.Assign, ast.AugAssign)) and n(x.targets[0] if isinstance(x, ast.Assign) else x.target) == "ode.y"
-             and not n(x.value).endswith("[0]")]
+    other = [x for x in g.nodes if isinstance(x, (ast.Assign, ast.AugAssign)) and eqx(x.targets[0] if isinstance(x, ast.Assign) else x.target, f"{ODE}.y")
+             and not (isinstance(x, ast.Assign) and isinstance(x.value, ast.Subscript) and eqx(x.value.slice, "0"))]
     chk.ob("R11.2", fi.where(), "ode.y is only ever overwritten by a re-minimised location", not other, "; ".join(n(x) for x in other), key="no-other-writes")
     # initial point
-    init = {n(st.targets[0]): n(st.value) for st in own_nodes(fi.node) if isinstance(st, ast.Assign) and n(st.targets[0]) in ("TList", "fieldList", "potentialEffList", "phase0")
-            and st.lineno < steps[0].lineno}
-    ok = init.get("TList") == "np.full(1, T0)" and "phase0" in init.get("fieldList", "") and "potential0" in init.get("potentialEffList", "") and init.get("phase0") == "FieldPoint(phase0Temp[0])"
-    chk.ob("R11.2", fi.where(), "the table starts with the re-minimised starting point (T0, phase0, potential0)", ok, str(init)[:200], key="initial-point")
+    first_step_line = steps[0].lineno
+    init = {}
+    for st in own_nodes(fi.node):
+        if isinstance(st, ast.Assign) and isinstance(st.targets[0], ast.Name) and st.targets[0].id in (TL, FL, VL) and st.lineno < first_step_line and st.targets[0].id not in init:
+            init[st.targets[0].id] = st.value
+    rkc = rk[0].value
+    T0e, PH0 = rkc.args[1] if len(rkc.args) > 1 else None, rkc.args[2] if len(rkc.args) > 2 else None
+    # the starting point: (location, value) = findLocalMinimum(starting guess, starting temperature)
+    start = [st for st in fi.node.body if isinstance(st, ast.Assign) and isinstance(st.targets[0], ast.Tuple) and len(st.targets[0].elts) == 2
+             and all(isinstance(e_, ast.Name) for e_ in st.targets[0].elts) and isinstance(st.value, ast.Call) and eqx(st.value.func, "self.effectivePotential.findLocalMinimum")
+             and len(st.value.args) >= 2 and eqx(st.value.args[0], "self.startingPhaseLocationGuess") and eqx(st.value.args[1], "self.startingTemperature", cx)]
+    okI = False
+    if len(start) == 1 and T0e is not None and PH0 is not None:
+        loc, val = (e_.id for e_ in start[0].targets[0].elts)
+        okI = set(init) == {TL, FL, VL} and eqx(T0e, "self.startingTemperature", cx) and eqx(PH0, f"FieldPoint({loc}[0])", cx) \
+            and eqx(init[TL], f"np.full(1, {n(T0e)})") and isinstance(init[FL], ast.Call) and n(init[FL].func) == "np.full" and has(init[FL], n(PH0)) \
+            and isinstance(init[VL], ast.Call) and n(init[VL].func) == "np.full" and has(init[VL], val)
+    chk.ob("R11.2", fi.where(), "the table starts with the re-minimised starting point (T0, phase0, potential0)", bool(okI), str({k: n(v) for k, v in init.items()})[:200],
+           key="initial-point")
     # ---- R11.3
     stores = {}
     for guards, st in walk_guarded(fi.node):
         if isinstance(st, ast.Assign) and n(st.targets[0]).startswith("self.m") and "PossibleTemperature" in n(st.targets[0]):
-            gt = [n(t) for t, pol in guards if pol and not isinstance(t, tuple)]
-            stores[n(st.targets[0])] = (st.value, gt[-1] if gt else "")
-    ok = "self.minPossibleTemperature[0]" in stores and "self.maxPossibleTemperature[0]" in stores and \
-        same_term(S, "freeEnergy", "FreeEnergy", stores["self.minPossibleTemperature[0]"][0], "min(TFullList) + 2 * dT") and \
-        same_term(S, "freeEnergy", "FreeEnergy", stores["self.maxPossibleTemperature[0]"][0], "max(TFullList) - 2 * dT")
+            gt = [t for t, pol in guards if pol and not isinstance(t, tuple)]
+            stores[n(st.targets[0])] = (st.value, gt[-1] if gt else None)
+    # the joined list of temperatures: the argument of min(...) in the stored lower end
+    TF = None
+    if "self.minPossibleTemperature[0]" in stores:
+        b = match(stores["self.minPossibleTemperature[0]"][0], "min(__TF) + 2 * dT")
+        TF = b["TF"] if b else None
+    ok = TF is not None and "self.maxPossibleTemperature[0]" in stores and eqx(stores["self.maxPossibleTemperature[0]"][0], f"max({TF}) - 2 * dT")
     chk.ob("R11.3", fi.where(), "usable range = [min(T) + 2 dT, max(T) - 2 dT] of the tabulated temperatures (documented safety margin)", bool(ok), key="margin")
-    ok = stores.get("self.minPossibleTemperature[1]", (None, ""))[1].replace(" ", "") == "min(TFullList)>TMin" and n(stores["self.minPossibleTemperature[1]"][0]) == "True" and \
-        stores.get("self.maxPossibleTemperature[1]", (None, ""))[1].replace(" ", "") == "max(TFullList)<TMax" and n(stores["self.maxPossibleTemperature[1]"][0]) == "True"
+    TF = TF or "TFullList"
+    lo, hi = stores.get("self.minPossibleTemperature[1]", (None, None)), stores.get("self.maxPossibleTemperature[1]", (None, None))
+    ok = lo[1] is not None and hi[1] is not None and eqx(lo[1], f"min({TF}) > TMin") and eqx(lo[0], "True") and eqx(hi[1], f"max({TF}) < TMax") and eqx(hi[0], "True")
     chk.ob("R11.3", fi.where(), "an end is flagged as a genuine end of the phase only when the table stops short of the requested range on that side", ok,
-           str({k: v[1] for k, v in stores.items()}), key="flags")
-    clip = {n(st.targets[0]): n(st.value).replace(" ", "") for st in own_nodes(fi.node) if isinstance(st, ast.Assign) and n(st.targets[0]) in ("TMin", "TMax")}
-    ok = clip.get("TMin") == "max(self.minPossibleTemperature[0],TMin)" and clip.get("TMax") == "min(self.maxPossibleTemperature[0],TMax)"
-    chk.ob("R11.3", fi.where(), "the requested range is first clipped to the range already known to be possible", ok, str(clip), key="clip")
-    ends = [st for st in own_nodes(fi.node) if isinstance(st, ast.Assign) and n(st.targets[0]) == "endpoints"]
-    ok = len(ends) == 1 and n(ends[0].value).replace(" ", "") == "[TMax,TMin]"
-    chk.ob("R11.3", fi.where(), "direction 0 integrates up to TMax, direction 1 down to TMin", ok, key="directions")
-    joins = {n(st.targets[0]): n(st.value).replace(" ", "") for guards, st in walk_guarded(fi.node) if isinstance(st, ast.Assign)
-             and n(st.targets[0]) in ("TFullList", "fieldFullList", "potentialEffFullList") and "np.flip" in n(st.value)}
-    ok = joins.get("TFullList") == "np.append(np.flip(TList,0),TFullList,axis=0)" and joins.get("fieldFullList") == "np.append(np.flip(fieldList,axis=0),fieldFullList,axis=0)" \
-        and joins.get("potentialEffFullList") == "np.append(np.flip(potentialEffList,axis=0),potentialEffFullList,axis=0)"
+           str({k: n(v[1]) if v[1] is not None else "" for k, v in stores.items()}), key="flags")
+    clip = {st.targets[0].id: st.value for st in own_nodes(fi.node) if isinstance(st, ast.Assign) and isinstance(st.targets[0], ast.Name) and st.targets[0].id in ("TMin", "TMax")}
+    ok = eqx(clip.get("TMin"), "max(self.minPossibleTemperature[0], TMin)") and eqx(clip.get("TMax"), "min(self.maxPossibleTemperature[0], TMax)")
+    chk.ob("R11.3", fi.where(), "the requested range is first clipped to the range already known to be possible", ok, str({k: n(v) for k, v in clip.items()}), key="clip")
+    # direction bookkeeping: which end each pass integrates to, and how the two passes are joined
+    dirs, DIR = _directions(fi, rk[0], cx)
+    chk.ob("R11.3", fi.where(), "direction 0 integrates up to TMax, direction 1 down to TMin", dirs == ["TMax", "TMin"], str(dirs), key="directions")
+    joins = {}
+    for guards, st in walk_guarded(fi.node):
+        if isinstance(st, ast.Assign) and isinstance(st.targets[0], ast.Name) and has(st.value, "np.flip"):
+            second = any((not pol and eqx(t, f"{DIR} == 0")) or (pol and (eqx(t, f"{DIR} == 1") or eqx(t, f"{DIR} != 0") or eqx(t, f"{DIR} > 0")))
+                         for t, pol in guards if not isinstance(t, tuple))
+            for role, lst in (("T", TL), ("field", FL), ("V", VL)):
+                if second and eqx(st, f"{st.targets[0].id} = np.concatenate((np.flip({lst}, axis=0), {st.targets[0].id}), axis=0)"):
+                    joins[role] = st.targets[0].id
+    ok = set(joins) == {"T", "field", "V"} and joins.get("T") == TF
     chk.ob("R11.3", fi.where(), "the downward list is reversed and put in front of the upward list for temperatures, fields and potentials alike (increasing T)", ok,
            str(joins)[:300], key="join-order")
+    # the upward pass initialises the joined lists with the upward lists
     fin = [c for c in calls_in(fi.node, "newInterpolationTableFromValues")]
-    res = [st for st in own_nodes(fi.node) if isinstance(st, ast.Assign) and n(st.targets[0]) == "result"]
-    ok = len(fin) == 1 and [n(a_) for a_ in fin[0].args] == ["TFullList", "result"] and len(res) == 1 and \
-        n(res[0].value).replace(" ", "") == "np.concatenate((fieldFullList,potentialEffFullList),axis=1)"
+    ok = len(fin) == 1 and ok and len(fin[0].args) == 2 and eqx(fin[0].args[0], TF) \
+        and eqx(fin[0].args[1], f"np.concatenate(({joins.get('field')}, {joins.get('V')}), axis=1)", cx)
     chk.ob("R11.3", fi.where(), "the interpolation table is built from (T, [fields..., V]) rows of exactly these lists", ok, key="table")
     # ---- R11.4
     fc = S.func("thermodynamics:Thermodynamics.findCriticalTemperature")
-    fd = S.func("thermodynamics:Thermodynamics.findCriticalTemperature.freeEnergyDifference")
-    chk.touch(fc.name, fd.name)
-    d = {n(st.targets[0]): n(st.value) for st in own_nodes(fd.node) if isinstance(st, ast.Assign)}
-    ok = d.get("f1") == "self.freeEnergyHigh(inputT).veffValue" and d.get("f2") == "self.freeEnergyLow(inputT).veffValue" and d.get("diff", "").replace(" ", "") == "f2-f1"
-    chk.ob("R11.4", fd.where(), "the scanned function is F_low(T) - F_high(T)", ok, str(d), key="difference")
-    dd = {n(st.targets[0]): n(st.value) for st in own_nodes(fc.node) if isinstance(st, ast.Assign) and isinstance(st.targets[0], ast.Name)}
-    loop = [x for x in own_nodes(fc.node) if isinstance(x, ast.While)]
-    ok = dd.get("T") == "TMax" and dd.get("TStep") == "dT" and len(loop) == 1 and n(loop[0].test).replace(" ", "") == "T-TStep>TMin" \
-        and any(isinstance(s_, ast.AugAssign) and isinstance(s_.op, ast.Sub) and n(s_.target) == "T" and n(s_.value) == "TStep" for s_ in loop[0].body)
-    chk.ob("R11.4", fc.where(), "the coarse scan starts at TMax and steps downward by dT while staying above TMin", ok, key="scan")
+    cc = Ctx(S, fc)
     rs = [c for c in calls_in(fc.node, "root_scalar")]
-    ok = len(rs) == 1 and n(rs[0].args[0]) == "freeEnergyDifference" and n(kwarg(rs[0], "bracket")).replace(" ", "") == "(T,T+TStep)"
+    if len(rs) != 1 or not rs[0].args or not isinstance(rs[0].args[0], ast.Name):
+        raise AnchorMissing("findCriticalTemperature: the root_scalar refinement of a local function not found")
+    DIFF = rs[0].args[0].id
+    fd = S.func(f"thermodynamics:Thermodynamics.findCriticalTemperature.{DIFF}")
+    chk.touch(fc.name, fd.name)
+    cd = Ctx(S, fd)
+    prm = [a_.arg for a_ in fd.node.args.args]
+    rets = [r for r in own_nodes(fd.node) if isinstance(r, ast.Return)]
+    ok = len(rets) == 1 and len(prm) == 1 and has(rets[0].value, f"self.freeEnergyLow({prm[0]}).veffValue - self.freeEnergyHigh({prm[0]}).veffValue", cd)
+    chk.ob("R11.4", fd.where(), "the scanned function is F_low(T) - F_high(T)", ok, n(rets[0].value) if rets else "", key="difference")
+    loop = [x for x in own_nodes(fc.node) if isinstance(x, ast.While)]
+    ok = False
+    Tn_, St_ = "T", "TStep"
+    if len(loop) == 1:
+        b = match(loop[0].test, "__T - __S > TMin")
+        if b:
+            Tn_, St_ = b["T"], b["S"]
+            pre = {st.targets[0].id: st.value for st in own_nodes(fc.node) if isinstance(st, ast.Assign) and isinstance(st.targets[0], ast.Name)
+                   and st.lineno < loop[0].lineno and st.targets[0].id in (Tn_, St_)}
+            ok = eqx(pre.get(Tn_), "TMax") and eqx(pre.get(St_), "dT") and \
+                any(eqx(s_, f"{Tn_} -= {St_}") or eqx(s_, f"{Tn_} = {Tn_} - {St_}") for s_ in loop[0].body)
+    chk.ob("R11.4", fc.where(), "the coarse scan starts at TMax and steps downward by dT while staying above TMin", ok, key="scan")
+    ok = eqx(kwarg(rs[0], "bracket"), f"({Tn_}, {Tn_} + {St_})") or eqx(kwarg(rs[0], "bracket"), f"[{Tn_}, {Tn_} + {St_}]")
     chk.ob("R11.4", fc.where(), "the crossing is refined by a bracketed root on the last step [T, T + dT]", ok, key="refine")
-    raises = [x for x in own_nodes(fc.node) if isinstance(x, ast.If) and any(isinstance(b, ast.Raise) for b in x.body)]
-    ok = any(n(x.test).replace(" ", "") == "notbConverged" for x in raises) and any("converged" in n(x.test) for x in raises)
+    # every path on which the scan loop ends without a sign change, or the refinement reports non-convergence, ends in a raise
+    gc = CFG(fc.node)
+    ok = _raises_unless(gc, fc, rs[0], loop[0] if loop else None)
     chk.ob("R11.4", fc.where(), "no sign change, or a non-converged refinement, raises instead of returning a temperature", ok, key="raises")
     tr = [c for c in calls_in(fc.node, "tracePhase")]
     ok = len(tr) == 2 and all(kwarg(c, "spinodal") is not None and n(kwarg(c, "spinodal")) == "True" for c in tr)
     chk.ob("R11.4", fc.where(), "phases traced here stop at spinodals", ok, key="trace-spinodal")
     # ---- R11.5
-    fo = S.func(f"{FE}.tracePhase.odeFunction")
+    co = Ctx(S, fo)
     c = [x for x in calls_in(fo.node, "allSecondDerivatives")]
     rets = [r for r in own_nodes(fo.node) if isinstance(r, ast.Return)]
-    ok = len(c) == 1 and [n(a_) for a_ in c[0].args] == ["FieldPoint(field)", "temperature"] and len(rets) == 1 and \
-        "scipylinalg.solve(hess, -dgraddT" in n(rets[0].value)
+    op = [a_.arg for a_ in fo.node.args.args]
+    ok = len(c) == 1 and len(op) == 2 and eqx(c[0], f"self.effectivePotential.allSecondDerivatives(FieldPoint({op[1]}), {op[0]})") and len(rets) == 1
+    if ok:
+        tgt = [st for st in own_nodes(fo.node) if isinstance(st, ast.Assign) and st.value is c[0] and isinstance(st.targets[0], ast.Tuple) and len(st.targets[0].elts) == 3]
+        ok = len(tgt) == 1 and all(isinstance(e_, ast.Name) for e_ in tgt[0].targets[0].elts[:2])
+        if ok:
+            H, G = (e_.id for e_ in tgt[0].targets[0].elts[:2])
+            ok = has(rets[0].value, f"scipylinalg.solve({H}, -{G}, assume_a='sym')") or has(rets[0].value, f"scipylinalg.solve({H}, -{G})")
     chk.ob("R11.5", fo.where(), "tracer ODE: d phi/dT = -H^{-1} d(grad V)/dT with H and the mixed derivative at the current (field, temperature)", ok, key="ode")
     fa = S.func("effectivePotential:EffectivePotential.allSecondDerivatives")
     chk.touch(fa.name)
-    d = {n(st.targets[0]): n(st.value).replace(" ", "") for st in own_nodes(fa.node) if isinstance(st, ast.Assign)}
-    ok = d.get("hess") == "res[...,:-1,:-1]" and d.get("dgraddT") == "res[...,-1,:-1]" and d.get("d2VdT2") == "res[...,-1,-1]"
-    chk.ob("R11.5", fa.where(), "allSecondDerivatives splits the (fields + T) Hessian into field block, mixed row and TT entry", ok, str(d), key="hessian-split")
-    rk = [c_ for c_ in calls_in(fi.node, "RK45")]
-    ok = len(rk) == 1 and [n(a_) for a_ in rk[0].args[:4]] == ["odeFunction", "T0", "phase0", "TEnd"]
+    ca = Ctx(S, fa)
+    rets = [r for r in own_nodes(fa.node) if isinstance(r, ast.Return)]
+    ok = False
+    if len(rets) == 1 and isinstance(rets[0].value, ast.Tuple) and len(rets[0].value.elts) == 3:
+        b = match(rets[0].value.elts[0], "__r[..., :-1, :-1]", ca)
+        ok = b is not None and eqx(rets[0].value.elts[1], f"{b['r']}[..., -1, :-1]", ca) and eqx(rets[0].value.elts[2], f"{b['r']}[..., -1, -1]", ca)
+    chk.ob("R11.5", fa.where(), "allSecondDerivatives splits the (fields + T) Hessian into field block, mixed row and TT entry", ok, key="hessian-split")
+    ok = len(rkc.args) >= 4 and eqx(rkc.args[0], fo.node.name) and bool(dirs)
     chk.ob("R11.5", fi.where(), "the integrator starts at (T0, phase0) and runs to the end of the requested direction", ok, key="rk45")
     # ---- R11.6 per-phase state: the range bookkeeping lists belong to the instance (two phases are traced one after the other)
     from ..core import shared_mutable_class_state
